@@ -359,7 +359,13 @@ pub fn gen_c14(out: &mut dyn Write, seed: u64, thorough: bool) {
             }
             for st in strs {
                 match enc(&st) {
-                    Ok(cw) => writeln!(out, "O strchk {} {} => ok", hex(st.as_bytes()), hex(&cw)).unwrap(),
+                    Ok(cw) => {
+                        // the encoder's stream under the string decoder model, and the crate's own decode_str
+                        writeln!(out, "O strchk {} {} => ok", hex(st.as_bytes()), hex(&cw)).unwrap();
+                        let back = dstr(&cw);
+                        let want = format!("ok:{}", hex(st.as_bytes()));
+                        writeln!(out, "O oracle {} => ok", if back == want { "ok".to_string() } else { format!("fail:decode_str:{}:returned:{}", hex(st.as_bytes()), back) }).unwrap();
+                    }
                     Err(e) => writeln!(out, "O oracle fail:encode_str:{}:{} => ok", e, hex(st.as_bytes())).unwrap(),
                 }
                 n_special += 1;
